@@ -9,7 +9,7 @@
 (* variables view and last are what the real server answered.  A real      *)
 (* answer that differs from the specified one therefore shows up as a      *)
 (* violation of a named property of C10, evaluated by TLC.                 *)
-EXTENDS PubServer, PubNames, Json, IOUtils
+EXTENDS PubServer, PubServerNames, Json, IOUtils
 
 Rec == ndJsonDeserialize(IOEnv.TRACE)
 
@@ -91,6 +91,22 @@ DetailsAgree ==
                 /\ e.details.known =>
                       /\ e.details.jail_ok
                       /\ ObjSet(e.details.files) = ObjSet(e.objs)
+\* What an RRDP update put on disk (projected at the "wend" that follows an
+\* Update; C10 runs have no cuts): the delta file of the new serial holds
+\* exactly the merged staged elements (with the hashes of the objects the
+\* snapshot held - the merge table), the snapshot file exactly the
+\* publishers' objects.
+AtWendOk == l > 1 /\ Prev.ev = "wend" /\ Prev.wres = "ok" /\ Prev.of \in {"Update", "Reset"}
+DiskFiles(k) == {f \in SeqToSet(Prev.disk.files) : f.k = k /\ f.s = session /\ f.n = serial}
+PublishedAgrees ==
+    AtWendOk =>
+        /\ \A f \in DiskFiles("snap") : ObjSet(f.body) = CurAll(cur) /\ f.dup = CurDup(cur)
+        /\ DiskFiles("snap") # {}
+        /\ deltas # <<>> =>
+              /\ DiskFiles("delta") # {}
+              /\ \A f \in DiskFiles("delta") :
+                    ElemSet(f.body) = deltas[1].body /\ f.dup = deltas[1].dup
+
 \* requests that the specification refuses / accepts are refused / accepted
 RepliesAgree ==
     AtRequest =>
